@@ -1,132 +1,13 @@
 /-
-Well-formedness of the ASTs that `Model/Parse.lean` builds, and a small postcondition logic
-(`Post m Q`: every successful run of `m` returns a value satisfying `Q`) to prove it.
-
-`wf n` says: every node of the tree `n` has the children that its kind (and, for expressions
-and type expressions, its operator / decorator) requires — exactly the children that the typed
-accessors of lang/ast and their users in lang/check and internal/cgen dereference without a nil
-check (`n.AsAssign().RHS().Effect()`, `n.AsIterate().Assigns()[i].AsAssign().LHS().Ident()`,
-`expr.LHS().AsExpr().MType()`, …) — and no list of children contains a nil entry.
+A small postcondition logic for the parser monad of `Model/Parse.lean` (`Post m Q`: every
+successful run of `m` returns a value satisfying `Q`), its automation, and the well-formedness
+lemmas of the cycle-free combinators (`parseList`, `parseBracket`, `parseArgNode`, …).
 -/
 import WuffsVerif.Proof.ParseLemmas
+import WuffsVerif.Proof.ParseWfTables
 
 namespace WuffsVerif.Parse
 open WuffsVerif.Token WuffsVerif.Gen.C11
-
-/-! ## the X-form classifiers of lang/token/list.go -/
-
-/-- `ID.IsXUnaryOp`. -/
-def isXUnaryOp (x : Nat) : Bool := minXOp ≤ x && x ≤ maxXOp && unaryForm x != 0
-/-- `ID.IsXBinaryOp`. -/
-def isXBinaryOp (x : Nat) : Bool := minXOp ≤ x && x ≤ maxXOp && binaryForm x != 0
-/-- `ID.IsXAssociativeOp`. -/
-def isXAssociativeOp (x : Nat) : Bool := minXOp ≤ x && x ≤ maxXOp && associativeForm x != 0
-
-/-! ## children required by kind -/
-
-/-- An `Expr` node with operator `op`, children `lhs rhs` and argument list `args`: the
-dispatch is the one of lang/check's `tcheckExpr` / `bcheckExpr1` and cgen's `writeExpr`
-(`0` = leaf, `(` call, `[` index, `..` slice, `.` selector, `,` list, then the X-forms);
-`false` for any other operator. -/
-def exprOK (op : Nat) (lhs rhs : Node) (args : List Node) : Bool :=
-  if op == 0 then true
-  else if op == IDOpenParen || op == IDDot || op == IDDotDot then !lhs.isNil
-  else if op == IDOpenBracket then !lhs.isNil && !rhs.isNil
-  else if op == IDComma then true
-  else if isXUnaryOp op then !rhs.isNil
-  else if isXBinaryOp op then !lhs.isNil && !rhs.isNil
-  else if isXAssociativeOp op then decide (2 ≤ args.length)
-  else false
-
-/-- A `TypeExpr` node with decorator `d`: `array[len] T` needs its length and inner type, the
-other decorators their inner type; an undecorated type has no inner type. -/
-def typeOK (d : Nat) (lhs rhs : Node) : Bool :=
-  if d == 0 then rhs.isNil
-  else if d == IDArray || d == IDRoarray then !lhs.isNil && !rhs.isNil
-  else if d == IDNptr || d == IDPtr || d == IDRoslice || d == IDRotable || d == IDSlice ||
-      d == IDTable then !rhs.isNil
-  else false
-
-/-- An `iterate` assignment: `x = expr` with a plain variable on the left. -/
-def iterAssignOK (n : Node) : Bool :=
-  n.kind == KAssign && !n.lhs.isNil && n.lhs.id0 == 0 && n.id0 == IDEq
-
-/-- The children a node of kind `k` must have (`a` = id0; `x y z` = lhs mhs rhs; `p` = list0). -/
-def shallowOK (k a : Nat) (x y z : Node) (p : List Node) : Bool :=
-  if k == KArg then !z.isNil                                  -- value
-  else if k == KAssert then !z.isNil                          -- condition
-  else if k == KAssign then !z.isNil && (!x.isNil || a == IDEq)  -- RHS; a bare call has no LHS
-  else if k == KChoose then true
-  else if k == KConst then !x.isNil && !z.isNil               -- type, value
-  else if k == KExpr then exprOK a x z p
-  else if k == KField then !x.isNil                           -- type
-  else if k == KFile then true
-  else if k == KFunc then !x.isNil                            -- the `args` struct
-  else if k == KIOManip then
-    !x.isNil && (if a == IDIOBind then !y.isNil && !z.isNil   -- io; data, history_position
-      else if a == IDIOLimit then !y.isNil else true)         -- limit
-  else if k == KIf then !y.isNil                              -- condition
-  else if k == KIterate then !x.isNil && p.all iterAssignOK   -- unroll; assigns
-  else if k == KJump then true
-  else if k == KRet then !x.isNil                             -- value
-  else if k == KStatus then true
-  else if k == KStruct then true
-  else if k == KTypeExpr then typeOK a x z
-  else if k == KUse then true
-  else if k == KVar then !x.isNil                             -- type
-  else if k == KWhile then !y.isNil                           -- condition
-  else false
-
-mutual
-/-- Deep well-formedness: `shallowOK` at every node of the tree, no nil list entries. -/
-def wf : Node → Bool
-  | .nil => true
-  | .mk k _ a _ _ _ x y z p q r =>
-    shallowOK k a x y z p && wf x && wf y && wf z && wfList p && wfList q && wfList r
-def wfList : List Node → Bool
-  | [] => true
-  | n :: rest => !n.isNil && wf n && wfList rest
-end
-
-/-- Present and well-formed. -/
-def WfN (n : Node) : Prop := n.isNil = false ∧ wf n = true
-
-theorem wfList_iff (l : List Node) : wfList l = true ↔ ∀ n ∈ l, WfN n := by
-  induction l with
-  | nil => simp [wfList]
-  | cons a r ih => simp [wfList, ih, WfN, and_assoc]
-
-theorem wfList_append (l r : List Node) : wfList (l ++ r) = (wfList l && wfList r) := by
-  induction l with
-  | nil => simp [wfList]
-  | cons a l ih => simp [wfList, ih, Bool.and_assoc]
-
-theorem wfList_reverse (l : List Node) : wfList l.reverse = wfList l := by
-  induction l with
-  | nil => rfl
-  | cons a l ih => simp [wfList, wfList_append, ih, Bool.and_comm]
-
-@[simp] theorem wf_nil : wf .nil = true := by simp [wf]
-
-theorem wf_setLine (l : Nat) (n : Node) : wf (n.setLine l) = wf n := by
-  cases n <;> simp [Node.setLine, wf]
-
-theorem isNil_setLine (l : Nat) (n : Node) : (n.setLine l).isNil = n.isNil := by
-  cases n <;> simp [Node.setLine, Node.isNil]
-
-theorem iterAssignOK_setLine (l : Nat) (n : Node) : iterAssignOK (n.setLine l) = iterAssignOK n := by
-  cases n <;> simp [Node.setLine, iterAssignOK, Node.kind, Node.lhs, Node.id0]
-
-theorem wfList_map_setLine (l : Nat) (p : List Node) : wfList (p.map (Node.setLine l)) = wfList p := by
-  induction p with
-  | nil => rfl
-  | cons a r ih => simp [wfList, ih, wf_setLine, isNil_setLine]
-
-theorem all_iterAssignOK_map_setLine (l : Nat) (p : List Node) :
-    (p.map (Node.setLine l)).all iterAssignOK = p.all iterAssignOK := by
-  induction p with
-  | nil => rfl
-  | cons a r ih => simp only [List.map_cons, List.all_cons, iterAssignOK_setLine, ih]
 
 /-! ## postconditions -/
 
@@ -139,6 +20,8 @@ theorem post_pure {α : Type} {a : α} {Q : α → Prop} (h : Q a) : Post (pure 
   intro s b s' hr
   simp [StateT.run, pure, StateT.pure, Except.pure] at hr
   rw [← hr.1]; exact h⟩
+
+theorem post_pure_eq {α : Type} (a : α) : Post (pure a : P α) (fun x => x = a) := post_pure rfl
 
 theorem post_true {α : Type} (m : P α) : Post m (fun _ => True) := ⟨fun _ _ _ _ => trivial⟩
 
@@ -155,6 +38,11 @@ theorem post_bind {α β : Type} {m : P α} {f : α → P β} {Q : α → Prop} 
     obtain ⟨a, s1⟩ := p
     simp only [hr] at h
     exact (hf a (hm.post s a s1 (by simp [StateT.run, hr]))).post s1 b s' (by simpa [StateT.run] using h)⟩
+
+/-- `pure a >>= f` is `f a` (the join points of `do` blocks produce these). -/
+theorem post_pure_bind {α β : Type} {a : α} {f : α → P β} {R : β → Prop}
+    (h : Post (f a) R) : Post (pure a >>= f) R :=
+  post_bind (post_pure_eq a) (fun _ hb => hb ▸ h)
 
 theorem failHere_error {α : Type} (s : PState) : ∃ l, (failHere : P α).run s = .error (.at l) := by
   unfold failHere curLine
@@ -196,5 +84,160 @@ theorem post_guard_throw {β : Type} {c : Prop} [Decidable c] {e : PErr} {f : PU
     exact post_bind (Q := fun _ => False) (post_throw e) (fun a ha => ha.elim)
   · simp only [hc, ite_false]
     exact post_bind (Q := fun _ => True) (post_true _) (fun a _ => h hc)
+
+theorem failHere_bind {α β : Type} (f : α → P β) :
+    StateT.bind (failHere : P α) f = failHere := by
+  funext s
+  obtain ⟨l, hl⟩ := failHere_error (α := α) s
+  obtain ⟨l', hl'⟩ := failHere_error (α := β) s
+  simp only [StateT.run] at hl hl'
+  simp only [StateT.bind, hl, hl']
+  unfold failHere curLine at hl hl'
+  cases h : s.src <;> simp_all [bind, StateT.bind, get, getThe, MonadStateOf.get,
+    StateT.get, pure, StateT.pure, Except.bind, Except.pure, throw, throwThe,
+    MonadExceptOf.throw, StateT.lift]
+
+/-! ## automation -/
+
+/-- Closes `WfN (.mk …)` / `∀ n ∈ l, WfN n` goals from the hypotheses about the parts. -/
+syntax "wf_close" : tactic
+macro_rules | `(tactic| wf_close) => `(tactic|
+  (simp_all [WfN, wf_mk, wf_newExpr, wf_newTypeExpr, wfList, wfList_iff, shallowOK, newAssign,
+    exprOK_leaf, exprOK_call, exprOK_dot, exprOK_dotdot, exprOK_index, exprOK_list, exprOK_unary,
+    exprOK_binary, exprOK_assoc, typeOK_plain,
+    KArg, KAssert, KAssign, KChoose, KConst, KExpr, KField, KFile, KFunc, KIOManip, KIf, KIterate,
+    KJump, KRet, KStatus, KStruct, KTypeExpr, KUse, KVar, KWhile]))
+
+/-- Extensible leaf rule set for `post_auto` (later rules are tried first). -/
+syntax "post_leaf" : tactic
+macro_rules | `(tactic| post_leaf) => `(tactic| exact post_throw _)
+macro_rules | `(tactic| post_leaf) => `(tactic| exact post_failHere)
+macro_rules | `(tactic| post_leaf) => `(tactic| assumption)
+
+/-- Walks a `do` block: guards keep their negated condition, binds whose result matters are
+closed by a hypothesis or a registered lemma (`post_leaf`), all other binds by `post_true`;
+the final `pure (.mk …)` is handed to `wf_close`. -/
+syntax "post_auto" : tactic
+macro_rules
+  | `(tactic| post_auto) => `(tactic| repeat' (first
+      | post_leaf
+      | (with_reducible apply post_guard; intro _)
+      | (with_reducible apply post_guard_throw; intro _)
+      | (with_reducible apply post_ite <;> intro _)
+      | with_reducible apply post_pure_bind
+      | with_reducible apply post_bind
+      | exact post_true _
+      | (with_reducible apply post_pure; wf_close)
+      | intro _
+      | split))
+
+/-! ## the cycle-free combinators -/
+
+theorem post_parseListLoop (env : Env) (stop : Nat) (elem : P Node) (Q : Node → Prop)
+    (hel : Post elem Q) : ∀ fuel acc, (∀ n ∈ acc, Q n) →
+      Post (parseListLoop env stop elem fuel acc) (fun l => ∀ n ∈ l, Q n) := by
+  intro fuel
+  induction fuel with
+  | zero => intro acc _; unfold parseListLoop; exact post_throw _
+  | succ fuel ih =>
+    intro acc hacc
+    unfold parseListLoop
+    post_auto
+    · grind
+    · grind
+    · apply ih; grind
+
+/-- `parseList`: every element of the returned list satisfies the element parser's
+postcondition (in particular: no nil entries). -/
+theorem post_parseList (env : Env) (stop : Nat) (elem : P Node) (Q : Node → Prop)
+    (hel : Post elem Q) : Post (parseList env stop elem) (fun l => ∀ n ∈ l, Q n) := by
+  unfold parseList
+  have := post_parseListLoop env stop elem Q hel
+  post_auto
+  apply this; simp
+
+macro_rules | `(tactic| post_leaf) => `(tactic| (apply post_parseList; post_leaf))
+
+theorem post_parseArgNode (env : Env) (pe : P Node) (hpe : Post pe WfN) :
+    Post (parseArgNode env pe) WfN := by
+  unfold parseArgNode
+  post_auto
+
+macro_rules | `(tactic| post_leaf) => `(tactic| (apply post_parseArgNode; post_leaf))
+
+/-- An optional expression (`if c then parseExpr else nil`). -/
+theorem post_optExpr {c : Prop} [Decidable c] {pe : P Node} (hpe : Post pe WfN) :
+    Post (if c then pe else pure .nil) (fun n => wf n = true) := by
+  apply post_ite <;> intro _
+  · exact post_mono hpe (fun _ h => h.2)
+  · exact post_pure wf_nil
+
+macro_rules | `(tactic| post_leaf) => `(tactic| (apply post_optExpr; post_leaf))
+
+/-- `parseBracket` with the two reads of the token after `[` merged into one (the second
+`peek1` of the original sees the same token when no expression was parsed in between). -/
+def parseBracket' (sep : Nat) (pe : P Node) : P (Nat × Node × Node) := do
+  expect IDOpenBracket
+  if (← peek1) != sep then do
+    let ei ← pe
+    let x ← peek1
+    if x == sep then do
+      skip
+      let ej ← if (← peek1) != IDCloseBracket then pe else pure .nil
+      expect IDCloseBracket
+      pure (sep, ei, ej)
+    else if x == IDCloseBracket && sep == IDDotDot then do
+      skip
+      pure (IDOpenBracket, .nil, ei)
+    else failHere
+  else do
+    skip
+    let ej ← if (← peek1) != IDCloseBracket then pe else pure .nil
+    expect IDCloseBracket
+    pure (sep, .nil, ej)
+
+theorem parseBracket_eq (sep : Nat) (pe : P Node) : parseBracket sep pe = parseBracket' sep pe := by
+  funext s
+  unfold parseBracket parseBracket'
+  simp only [bind, StateT.bind]
+  cases h1 : expect IDOpenBracket s with
+  | error e => rfl
+  | ok r =>
+    obtain ⟨u, s1⟩ := r
+    obtain ⟨x, hx, _⟩ := run_peek1 s1
+    simp only [StateT.run] at hx
+    simp only [Except.bind, hx]
+    by_cases hc : (x != sep) = true
+    · simp only [hc, ite_true, failHere_bind]
+    · simp only [hc]
+      simp at hc
+      subst hc
+      simp only [bne_self_eq_false, Bool.false_eq_true, ite_false, pure, StateT.pure, Except.pure,
+        StateT.bind, bind, Except.bind, hx, beq_self_eq_true, ite_true]
+
+/-- `parseBracket`: both expressions are well-formed when present; for an index (`[`) the index
+expression is present (third component). -/
+theorem post_parseBracket (sep : Nat) (pe : P Node) (hpe : Post pe WfN) :
+    Post (parseBracket sep pe) (fun r => wf r.2.1 = true ∧ wf r.2.2 = true ∧
+      (r.1 = sep ∨ (r.1 = IDOpenBracket ∧ r.2.2.isNil = false))) := by
+  rw [parseBracket_eq]
+  unfold parseBracket'
+  post_auto
+
+macro_rules | `(tactic| post_leaf) => `(tactic| (apply post_parseBracket; post_leaf))
+
+theorem post_parseAssertNode (env : Env) (pe : P Node) (hpe : Post pe WfN) :
+    Post (parseAssertNode env pe) WfN := by
+  unfold parseAssertNode
+  post_auto
+
+macro_rules | `(tactic| post_leaf) => `(tactic| (apply post_parseAssertNode; post_leaf))
+
+theorem post_parseAsserts (env : Env) (pe : P Node) (hpe : Post pe WfN) :
+    Post (parseAsserts env pe) (fun l => ∀ n ∈ l, WfN n) := by
+  unfold parseAsserts
+  post_auto
+
+macro_rules | `(tactic| post_leaf) => `(tactic| (apply post_parseAsserts; post_leaf))
 
 end WuffsVerif.Parse
